@@ -12,6 +12,8 @@ mod envelope;
 mod osc;
 #[path = "../../dsim/src/probe.rs"]
 mod probe;
+#[path = "../../dsim/src/raw.rs"]
+mod raw;
 #[path = "../../dsim/src/rms.rs"]
 mod rms;
 #[path = "../../dsim/src/sinc.rs"]
